@@ -55,7 +55,7 @@ Definition eng_command (inp impl : node) : verdict :=
   match inp with
   | List [Str op; a] =>
       if str_eqb op (lit "parse") then
-        let m := res_node_c Str (parse (nstr a)) in
+        let m := res_node Str (parse (nstr a)) in
         {| model_obs := m; violated := if node_eqb m impl then [] else [lit "C15"] |}
       else if str_eqb op (lit "segments") then
         let m := List (map Str (segments (nstr a))) in
